@@ -293,3 +293,22 @@ PROPS['C17'] = dict(
     level_note='Trusted: u128 reference; the spec of each row is read off the declaration (names offset_a/_b/_c, positional stride). Output strides/index arrays are generated non-overlapping; thread arguments above 256 are not generated.',
     assumptions=['output positions designated by strides/index arrays are distinct', 'thread-count arguments <= 256'],
 )
+
+HARNESSES['h_cubic_batch'] = dict(src='h_cubic_batch.cpp', deps=['harness/c16_table.inc'])
+
+PROPS['C16'] = dict(
+    title='Every batched/AVX2/AVX512 cubic-extension variant equals the scalar operation',
+    jobs=[J('h_cubic_batch', 'fast5', 1_600_000, 160_000_000, wq=16, wt=16),
+          J('h_cubic_batch', 'fast2', 400_000, 40_000_000, wq=8, wt=16, class_prefix='avx2-build:')],
+    rule='One table row per overload of the add/sub/mul families of Goldilocks3 (156 rows: batch, avx, avx512; derived from the function heads by tools/gen_c16.py: operation, operand dimensions and constness from the name '
+         '(13, 31, 33c, 1c3c, 13c, 31c; default 33), operand storage from the parameter types (interleaved array, array with uniform stride or per-element index array, constant array, base scalar, constant extension reference, '
+         'one register, planar Element_avx, three separate registers, precomputed challenge sums as array or registers), strides from the parameter names). A generic driver draws coefficient pools from the boundary element classes, '
+         'input strides from {0,1,2,3,4,5,7,61,1000} independently per operand (overlapping and repeated positions allowed), output strides from {3,..,1000} and non-overlapping output index arrays, lays operands out in exact-size '
+         'junk-filled arenas, consistent challenge sums (b0+b1, b0+b2, b1+b2; sometimes as +p aliases), calls the overload and compares element k with the C09 reference on the k-th designated operands (canonical); '
+         'every non-designated output cell must keep its sentinel; inputs unchanged; metamorphic rerun with different junk. Non-trivial: stride not in {1,3}, non-identity index array, non-canonical coefficient.',
+    expected_classes=['shape:stride-0', 'shape:overlapping-input-stride', 'shape:large-stride', 'shape:permuted/sparse-input-index', 'shape:permuted/sparse-output-index', 'shape:challenge-sums-operand', 'shape:non-canonical-operand'],
+    technique='table-driven rapidcheck property-based testing of all 156 overloads against the schoolbook extension reference; sentinel arenas; metamorphic junk relation',
+    level_text='All 156 overloads are exercised thousands of times per run with independent strides per operand, so that a confused stride, coefficient index or operand order is visible; stray writes are caught by sentinels.',
+    level_note='Trusted: u128 schoolbook reference; row specs are read off names and parameter types (re-read against the body when a row fails). Output positions never overlap.',
+    assumptions=['output strides >= 3 and output index arrays designate non-overlapping triples', 'challenge-sums operand is consistent with the second operand'],
+)
